@@ -98,3 +98,47 @@ pub fn run() {
     }
     println!("B7 len={} cap={} monotone={} failed_at={} growths_ge1={}", w.big.len(), w.big.capacity(), monotone as u8, failed_at, (growths >= 1) as u8);
 }
+
+/// C08 / C10 / C19: the generation boundary reached with 2^32 - 1 REAL create/destroy cycles on one
+/// position (no hook).  Lines Y1..Y3 are compared by tools/engine.py with what the theorems
+/// predict for the build's `wrapping_version` setting.
+pub fn cycles() {
+    let wrapping = cfg!(feature = "wrapping_version");
+    let mut w = Wc::with_capacity(WcCapacity { big: 1 });
+    let first = w.big.create((Plain(0),));
+    let mut e = first;
+    let mut monotone = true;
+    let mut same_key = true;
+    let mut cycles: u64 = 0;
+    // generations 1 .. 2^32-1: 2^32-2 destroys that must neither panic nor wrap
+    while e.into_any().raw().1 != u32::MAX {
+        let v = e.into_any().raw().1;
+        if w.big.destroy(e).is_none() {
+            monotone = false;
+            break;
+        }
+        let n = w.big.create((Plain(v),));
+        if n.into_any().raw().1 != v + 1 {
+            monotone = false;
+        }
+        if n.into_any().raw().0 != first.into_any().raw().0 {
+            same_key = false;
+        }
+        e = n;
+        cycles += 1;
+    }
+    println!("Y1 cycles={} last_version={} monotone={} same_position={} first_dead={}", cycles, e.into_any().raw().1, monotone as u8, same_key as u8, (!w.big.contains(first)) as u8);
+    // the destroy at generation 2^32-1
+    let r = guard(|| w.big.destroy(e).is_some());
+    let (len, alive) = (w.big.len(), w.big.contains(e));
+    println!("Y2 {} len={} still_alive={} wrapping={}", match r { Ok(b) => format!("ok destroyed={}", b as u8), Err(c) => format!("panic {}", c) }, len, alive as u8, wrapping as u8);
+    // afterwards the world is usable: without wrapping the entity is simply still there; with
+    // wrapping the next handle on this position carries the start generation again
+    if alive {
+        let v = w.big.view(e).map(|v| v.component::<Plain>().0);
+        println!("Y3 view={:?} iter_count={}", v, w.big.iter().count());
+    } else {
+        let n = w.big.create((Plain(5),));
+        println!("Y3 next_version={} equals_first={} old_max_dead={} len={}", n.into_any().raw().1, (n == first) as u8, (!w.big.contains(e)) as u8, w.big.len());
+    }
+}
